@@ -112,6 +112,26 @@ func metricsConn(e *e2eEnv, kind string, r *rng) {
 		rec := h.Record()
 		c.Write(rec[:r.rangeI(1, len(rec)-1)])
 		c.Close()
+	case "connect-close":
+		// a peer that connects and leaves without a byte (TCP health check, port scan): a clean FIN before any record
+		c, err := net.DialTimeout("tcp", e.addr, 3*time.Second)
+		if err != nil {
+			return
+		}
+		c.Close()
+	case "hello-close", "hello-halfclose":
+		// a complete, valid ClientHello and then a clean close at the record boundary, before the client's Finished
+		c, err := net.DialTimeout("tcp", e.addr, 3*time.Second)
+		if err != nil {
+			return
+		}
+		tc := tls.Client(&leaveOnRead{Conn: c, half: kind == "hello-halfclose"}, &tls.Config{InsecureSkipVerify: true, NextProtos: []string{"h2", "http/1.1"}})
+		tc.Handshake()
+		if kind == "hello-halfclose" {
+			c.SetReadDeadline(time.Now().Add(3 * time.Second))
+			io.ReadAll(c)
+		}
+		c.Close()
 	case "stall":
 		c, err := net.DialTimeout("tcp", e.addr, 3*time.Second)
 		if err != nil {
@@ -129,6 +149,21 @@ func metricsConn(e *e2eEnv, kind string, r *rng) {
 		tc.Handshake()
 		c.Close()
 	}
+}
+
+// leaveOnRead lets the TLS client write its ClientHello and leaves the moment it wants to read the server's answer
+type leaveOnRead struct {
+	net.Conn
+	half bool
+}
+
+func (l *leaveOnRead) Read(b []byte) (int, error) {
+	if tc, ok := l.Conn.(*net.TCPConn); ok && l.half {
+		tc.CloseWrite()
+	} else {
+		l.Conn.Close()
+	}
+	return 0, io.EOF
 }
 
 func gatherRequestsTotal(e *e2eEnv) map[string]int {
@@ -267,7 +302,7 @@ func init() {
 
 	register("metrics", "requests_total: batches of concurrent connections with every outcome against the real stack", func(c *ctx) {
 		kinds := []string{"h2", "h1", "noalpn", "plainhttp", "garbage", "abort-hello", "stall", "abort-after-h1", "abort-after-h2", "tls10",
-			"reject-cert-h2", "reject-cert-h1", "rst-after-h1", "rst-after-h2", "badrecver-h2", "badrecver-h1"}
+			"reject-cert-h2", "reject-cert-h1", "rst-after-h1", "rst-after-h2", "badrecver-h2", "badrecver-h1", "connect-close", "hello-close", "hello-halfclose"}
 		for i := 0; i < c.count; i++ {
 			r := c.rng.fork()
 			n := r.rangeI(1, 24)
